@@ -326,6 +326,10 @@ def run_case(case):
                         return "stop"
                     if sum(1 for s in model.sched if s[0] == key[0]) > 1:
                         res.label("equal_times")
+                    if any(s[0] == key[0] and s[1] == key[1] and s[2] < key[2] for s in model.sched):
+                        # "events from one trigger in trigger order": scheduled for the same time through the same trigger
+                        res.viol("events_of_one_trigger_out_of_order", detail="equal scheduled times, later call delivered first", **ctx)
+                        return "stop"
                     model.sched.remove(key)
                     model.delivered += 1
                     return out
@@ -367,6 +371,9 @@ def run_case(case):
                     res.nontrivial = True
                     if not big:
                         res.viol("paste_event_without_large_read", first_read=first_read, threshold=threshold, **ctx)
+                        return "stop"
+                    if not all(isinstance(k, bytes) for k in out.events):
+                        res.viol("paste_event_holds_something_that_is_not_a_keypress", events=[repr(k)[:20] for k in out.events[:8]], **ctx)
                         return "stop"
                     data = b"".join(k for k in out.events)
                     if len(data) > 2048:
